@@ -210,17 +210,17 @@ func (env *SpecEnv) lookupInAct(name string) (TV, bool) {
 			}
 		}
 		for a := act; a != nil; a = a.parent {
-			if val, ok := a.names[name]; ok {
-				if al, isAlloc := val.(*ssa.Alloc); isAlloc {
-					if p, ok := a.env[al]; ok {
-						et := al.Type().(*types.Pointer).Elem()
+			if nr, ok := a.names[name]; ok {
+				if nr.cell {
+					if p, ok := a.env[nr.val]; ok {
+						et := nr.val.Type().(*types.Pointer).Elem()
 						return TV{vc.load(env.st, p.(PtrV), et), et}, true
 					}
 					continue
 				}
-				if v, ok := a.env[val]; ok {
+				if v, ok := a.env[nr.val]; ok {
 					// only usable when the definition dominates the current point
-					return TV{v, val.Type()}, true
+					return TV{v, nr.val.Type()}, true
 				}
 			}
 		}
